@@ -1031,7 +1031,7 @@ impl Scenario for C02 {
     }
     fn runs(&self, tier: Tier) -> u64 {
         match tier {
-            Tier::Quick => 2_500,
+            Tier::Quick => 1_200,
             Tier::Thorough => 200_000,
         }
     }
